@@ -13,6 +13,7 @@
   6. the entry-level theorems used by `Props/C01`, `C02`, `C09`.
 -/
 import SSJ.Proofs.Frames
+import SSJ.Proofs.BodyOK
 import SSJ.Proofs.Arith
 import SSJ.Proofs.JoinSetSim
 import SSJ.Proofs.Session
@@ -257,7 +258,7 @@ theorem setSimJoin_row_length (m : Measure) (a : JoinArgs) (toks : TokFn) (l : F
 /-- TOTALITY + DECOMPOSITION: after a successful validation the call returns a frame whose rows are the
     payload rows, each preceded by its position -/
 theorem result_rows (m : Measure) (a : JoinArgs) (t : TokObj) (toks : TokFn) (cpu : Int) (l r : Frame)
-    (hv : validateJoin m.name a t = .ok (l, r)) :
+    (hv : validateJoin m.name a t = .ok (l, r)) (hb : Props.BodyOK a.toTableArgs l r a.outSimScore) :
     ∃ fr, (setSimJoinPy m a t toks cpu).result = .ok fr ∧
       fr.rows = (payload m a toks cpu l r).zipIdx.map (fun (x : Row × Nat) => Cell.int x.2 :: x.1) := by
   have hw := fun ch => setSimJoin_row_length m a toks l ch
@@ -265,7 +266,7 @@ theorem result_rows (m : Measure) (a : JoinArgs) (t : TokObj) (toks : TokFn) (cp
       (fun o lAttr rAttr lArr ch =>
         setSimJoin { f := { cfg := { measure := m, threshold := a.threshold }, allowEmpty := a.allowEmpty },
                      compOp := a.compOp, lAttr := lAttr, rAttr := rAttr, out := o, outSimScore := a.outSimScore }
-          (toks true) lArr ch) hw
+          (toks true) lArr ch) hw hb.lstr hb.rstr hb.noClash
   have hres : (setSimJoinPy m a t toks cpu).result = runTables a.toTableArgs l r a.allowMissing a.outSimScore cpu
       (fun o lAttr rAttr lArr ch =>
         setSimJoin { f := { cfg := { measure := m, threshold := a.threshold }, allowEmpty := a.allowEmpty },
@@ -679,15 +680,15 @@ theorem keys_of_validateJoin (hv : validateJoin m.name a t = .ok (l, r)) :
 theorem rows_of_result (hv : validateJoin m.name a t = .ok (l, r)) (fr : Frame)
     (hres : (setSimJoinPy m a t toks cpu).result = .ok fr) :
     fr.rows = (payload m a toks cpu l r).zipIdx.map (fun (x : Row × Nat) => Cell.int x.2 :: x.1) := by
-  obtain ⟨fr', h1, h2⟩ := result_rows m a t toks cpu l r hv
+  obtain ⟨fr', h1, h2⟩ := result_rows m a t toks cpu l r hv (setSimJoinPy_bodyOK m a t toks cpu l r hv fr hres)
   rw [hres] at h1
   cases Except.ok.inj h1
   exact h2
 
 /-- after a successful validation the call returns a frame -/
-theorem total (hv : validateJoin m.name a t = .ok (l, r)) :
+theorem total (hv : validateJoin m.name a t = .ok (l, r)) (hb : Props.BodyOK a.toTableArgs l r a.outSimScore) :
     ∃ fr, (setSimJoinPy m a t toks cpu).result = .ok fr := by
-  obtain ⟨fr, h, -⟩ := result_rows m a t toks cpu l r hv
+  obtain ⟨fr, h, -⟩ := result_rows m a t toks cpu l r hv hb
   exact ⟨fr, h⟩
 
 /-- C01 -/
@@ -697,12 +698,13 @@ theorem complete (hm : SetMeasure m) (hv : validateJoin m.name a t = .ok (l, r))
     (hpl : Present l a.lAttr ls) (hpr : Present r a.rAttr rs)
     (hne : Spec.bothEmpty (tokensOf (toks true) l a.lAttr ls) (tokensOf (toks true) r a.rAttr rs) = false)
     (hq : Spec.qualStrict m a.compOp (.float thr) (tokensOf (toks true) l a.lAttr ls)
-      (tokensOf (toks true) r a.rAttr rs) = true) :
+      (tokensOf (toks true) r a.rAttr rs) = true)
+    (hb : Props.BodyOK a.toTableArgs l r a.outSimScore) :
     ∃ fr, (setSimJoinPy m a t toks cpu).result = .ok fr ∧
       ∃ row ∈ fr.rows, rowKeys row = (keyOf l a.lKey ls, keyOf r a.rKey rs) ∧
         (a.outSimScore = true → rowScore row = scoreCell (Spec.score4 m (tokensOf (toks true) l a.lAttr ls)
           (tokensOf (toks true) r a.rAttr rs))) := by
-  obtain ⟨fr, hres, hrows⟩ := result_rows m a t toks cpu l r hv
+  obtain ⟨fr, hres, hrows⟩ := result_rows m a t toks cpu l r hv hb
   obtain ⟨-, -, hop⟩ := of_validateJoin hm hv
   have hmem := chunkPart_complete m a toks cpu l r hm hop thr hthr hok hs ls hls rs hrs hpl hpr hne hq
   obtain ⟨i, hi⟩ := mem_rows_intro (payload m a toks cpu l r) _ (List.mem_append_left _ hmem)
